@@ -24,6 +24,13 @@ def _is_numbers_call(e):
     kw = {k.arg: k.value for k in e.keywords}
     return "vocabulary" in kw and isinstance(kw.get("missing"), ast.Constant) and kw["missing"].value == "negative"
 
+def _strip(e):
+    """drop value-preserving conversions: torch.from_numpy(x), np.asarray(x), x.to(…), x.cpu(), x.numpy()"""
+    while True:
+        if isinstance(e, ast.Call) and ast.unparse(e.func) in ("torch.from_numpy", "np.asarray", "torch.as_tensor") and len(e.args) == 1: e = e.args[0]; continue
+        if isinstance(e, ast.Call) and isinstance(e.func, ast.Attribute) and e.func.attr in ("to", "cpu", "numpy") and ast.unparse(e.func.value) not in ("torch", "np"): e = e.func.value; continue
+        return e
+
 def _mentions(e, names): return any(isinstance(n, ast.Name) and n.id in names for n in ast.walk(e))
 
 def translate_call(src_root, rel, cls, lean_name):
@@ -46,6 +53,7 @@ def translate_call(src_root, rel, cls, lean_name):
             return e.left.id, f"(geZero {e.left.id})"
         return None
     def good_of(e):
+        e = _strip(e)
         if isinstance(e, ast.Name) and kind.get(e.id, ("",))[0] == "good": return kind[e.id][1], e.id
         if isinstance(e, ast.Subscript) and isinstance(e.value, ast.Name) and kind.get(e.value.id, ("",))[0] == "nums":
             m = mask_of(e.slice)
@@ -53,6 +61,14 @@ def translate_call(src_root, rel, cls, lean_name):
         return None
     def pw_of(e):
         """a value that is `tbl` applied to each entry of a compacted number array, possibly followed by a row-wise product"""
+        e = _strip(e)
+        # a method of the scorer applied to the compacted item numbers and item-independent operands: one value per gathered item
+        if isinstance(e, ast.Call) and isinstance(e.func, ast.Attribute) and ast.unparse(e.func.value) == "self" and not e.keywords:
+            gs = [good_of(a_) for a_ in e.args]
+            if sum(1 for g_ in gs if g_) == 1 and all(g_ or not _mentions(a_, dep) for g_, a_ in zip(gs, e.args)):
+                g_ = next(g_ for g_ in gs if g_)
+                notes.append(f"line {e.lineno}: `{ast.unparse(e)}` is taken as one value per gathered item (the scorer's own kernel), part of `tbl`")
+                return g_[0], f"(gather tbl wrap {g_[1]})"
         if isinstance(e, ast.Name) and kind.get(e.id, ("",))[0] == "pw": return kind[e.id][1], e.id
         if isinstance(e, ast.Subscript) and not _mentions(e.value, dep):
             idx = e.slice.elts if isinstance(e.slice, ast.Tuple) else [e.slice]
@@ -74,7 +90,11 @@ def translate_call(src_root, rel, cls, lean_name):
                 notes.append(f"line {e.lineno}: `{ast.unparse(e)}` is taken as a row-wise product (one value per gathered row), part of `tbl`")
                 return p
         return None
-    for s in fn.body:
+    def flat(stmts):
+        for st in stmts:
+            if isinstance(st, ast.With): yield from flat(st.body)          # `with torch.inference_mode():` and the like
+            else: yield st
+    for s in flat(fn.body):
         if isinstance(s, ast.Return) and started and wrapped is not None:
             v = s.value
             if isinstance(v, ast.Name) and v.id == wrapped[0]: result = wrapped[1]; break
@@ -100,6 +120,8 @@ def translate_call(src_root, rel, cls, lean_name):
                 m = mask_of(v)
                 if m and not isinstance(v, ast.Name): kind[t.id] = ("mask", m[0]); dep.add(t.id); lines.append(f"  let {t.id} := geZero {m[0]}"); continue
                 g = good_of(v)
+                if g and isinstance(_strip(v), ast.Name) and not isinstance(v, ast.Name):          # a converted copy of the compacted numbers
+                    kind[t.id] = ("good", g[0]); dep.add(t.id); lines.append(f"  let {t.id} := {g[1]}"); continue
                 if g and not isinstance(v, ast.Name): kind[t.id] = ("good", g[0]); dep.add(t.id); lines.append(f"  let {t.id} := {g[1]}"); continue
                 p = pw_of(v)
                 if p and not isinstance(v, ast.Name): kind[t.id] = ("pw", p[0]); dep.add(t.id); lines.append(f"  let {t.id} := {p[1]}"); continue
@@ -139,7 +161,8 @@ def translate_call(src_root, rel, cls, lean_name):
             "notes": list(dict.fromkeys(notes)), "digest": hashlib.sha256(seg.encode()).hexdigest()[:16], "where": f"{rel} {cls}.__call__"}
 
 SCORERS = [("basic/popularity.py", "PopScorer", "popScorerCall"), ("hpf.py", "HPFScorer", "hpfScorerCall"), ("funksvd.py", "FunkSVDScorer", "funkSVDScorerCall"),
-           ("als/_common.py", "ALSBase", "alsScorerCall"), ("sklearn/svd.py", "BiasedSVDScorer", "biasedSVDScorerCall")]
+           ("als/_common.py", "ALSBase", "alsScorerCall"), ("sklearn/svd.py", "BiasedSVDScorer", "biasedSVDScorerCall"),
+           ("flexmf/_base.py", "FlexMFScorerBase", "flexMFScorerCall")]
 
 def generate(src_root):
     parts = []; notes = []
